@@ -50,6 +50,42 @@ Fixpoint has_rec (t : ty) : bool :=
   | TUnion ts => existsb has_rec ts
   end.
 
+(* number of list levels of a type (purelist_depth - 1); records and strings are leaves *)
+Fixpoint pl_depth (t : ty) : Z :=
+  match t with
+  | TList _ (Some _) _ => 0
+  | TList _ None t' => 1 + pl_depth t'
+  | TOpt t' => pl_depth t'
+  | _ => 0
+  end.
+
+(* Content::axis_wrap_if_negative called on the WHOLE array (what the Python functions do first): a negative axis
+   is made absolute only when purelist_depth = min depth = max depth (so not through records with list-type
+   fields: there it stays negative and each branch resolves it later); axis = -(min depth) is refused then. *)
+Definition resolve_axis_top (t : ty) (axis : Z) : res Z :=
+  if 0 <=? axis then Ok axis else
+  let (mn, mx) := minmax t in
+  let pd := 1 + pl_depth t in
+  if (mn =? pd) && (mx =? pd) then (if pd + axis <? 0 then Err EValue else Ok (pd + axis))
+  else if mn + axis =? 0 then Err EValue
+  else Ok axis.
+
+Fixpoint outer_is_string (t : ty) : bool :=
+  match t with
+  | TOpt t' => outer_is_string t'
+  | TList _ (Some _) _ => true
+  | _ => false
+  end.
+
+(* a record type met before [n] list levels have been passed *)
+Fixpoint rec_above (n : nat) (t : ty) {struct t} : bool :=
+  match t with
+  | TRec _ _ => true
+  | TOpt t' => rec_above n t'
+  | TList _ None t' => match n with O => false | S k => rec_above k t' end
+  | _ => false
+  end.
+
 (* ====================================================================== C05 *)
 
 (* dtypes of the NumPy arrays that completely_flatten produces, in order *)
@@ -118,7 +154,7 @@ Definition spec_flatten (axis : option Z) (t : ty) (vs : list value) : res value
   match axis with
   | None => spec_flatten_none t vs
   | Some a =>
-      do ax <- resolve_axis t 0 a;
+      do ax <- resolve_axis_top t a;
       if (a =? 0) || (ax =? 0) then
         match t with
         | TUnion _ => unspecified
@@ -131,7 +167,7 @@ Definition spec_flatten (axis : option Z) (t : ty) (vs : list value) : res value
 (* ak.num(array, axis): axis 0 is the length (for an array that IS a record array: the length, once per field,
    as a record - RecordArray::num treats records as transparent) *)
 Definition spec_num (axis : Z) (t : ty) (vs : list value) : res value :=
-  do ax <- resolve_axis t 0 axis;
+  do ax <- resolve_axis_top t axis;
   if ax =? 0 then
     let n := VNum (DZ (zlen vs)) in
     match t with
@@ -144,7 +180,7 @@ Definition spec_num (axis : Z) (t : ty) (vs : list value) : res value :=
 
 (* ak.local_index(array, axis) *)
 Definition spec_local_index (axis : Z) (t : ty) (vs : list value) : res value :=
-  do ax <- resolve_axis t 0 axis;
+  do ax <- resolve_axis_top t axis;
   if ax =? 0 then Ok (VList (map (fun i => VNum (DZ i)) (iota (zlen vs))))
   else rmap VList (localindex_spec axis t vs).
 
@@ -232,7 +268,7 @@ Fixpoint level_is_string (n : nat) (t : ty) {struct t} : bool :=
 Inductive counts_arg := CInt (n : Z) | CArr (tc : ty) (cs : list value).
 
 Definition spec_unflatten (axis : Z) (t : ty) (vs : list value) (c : counts_arg) : res value :=
-  do ax <- resolve_axis t 0 axis;
+  do ax <- resolve_axis_top t axis;
   match c with
   | CInt n =>
       if ax =? 0 then
@@ -335,7 +371,7 @@ Definition spec_combinations (n : Z) (repl : bool) (axis : Z) (fields : option (
            (t : ty) (vs : list value) : res value :=
   if n <? 1 then Err EValue else
   if negb (fields_ok n fields) then Err EValue else
-  do ax <- resolve_axis t 0 axis;
+  do ax <- resolve_axis_top t axis;
   if ax =? 0 then comb_ff n repl fields t vs
   else rmap VList (spec_ax (comb_ff n repl fields) true (fun _ => true) false t axis vs).
 
@@ -461,9 +497,9 @@ Fixpoint cart_ty (n : nat) (ts : list ty) {struct n} : res unit :=
   end.
 
 Definition same_axis (t0 : ty) (axis : Z) (ts : list ty) : res Z :=
-  do ax <- resolve_axis t0 0 axis;
+  do ax <- resolve_axis_top t0 axis;
   if ax <? 0 then Err EValue else
-  if forallb (fun t => match resolve_axis t 0 axis with Ok a => a =? ax | Err _ => false end) ts
+  if forallb (fun t => match resolve_axis_top t axis with Ok a => a =? ax | Err _ => false end) ts
   then Ok ax else Err EValue.
 
 (* ak.cartesian(arrays, axis, nested): [fields] = dict keys, None for a list of arrays *)
@@ -535,9 +571,7 @@ Definition stretch (allreg : bool) (target : Z) (b : bpart) : res (list value) :
       if zlen l =? target then Ok l
       else if s =? 1 then match l with [x] => Ok (repeatZ x target) | _ => Err EValue end
       else Err EValue
-  | BNon v =>
-      (* left-broadcasting; among regular lists only, the lengths must already agree *)
-      if allreg && negb (target =? 1) then Err EValue else Ok (repeatZ v target)
+  | BNon v => Ok (repeatZ v target)             (* left-broadcasting of a shallower participant *)
   end.
 
 Section Bcast.
@@ -557,6 +591,8 @@ Section Bcast.
           if existsb (fun p => is_opt (fst p) && is_none (snd p)) ps then Ok VNone
           else bc f depth (map (fun p => (strip_opt1 (fst p), snd p)) ps)
         else if existsb is_listty ts then
+          (* a string next to another list is broadcast as a unit or as characters, depending on the offsets *)
+          if existsb outer_is_string ts then unspecified else
           do bs <- mapM classify ps;
           let allreg := match first_var bs with None => true | Some _ => false end in
           let target := match first_var bs with Some n => n | None => max_reg bs end in
@@ -568,6 +604,26 @@ Section Bcast.
     end.
 End Bcast.
 
+(* the same walk on the node types alone: what the code decides (and refuses) even when there are no elements *)
+Section BcastTy.
+  Variable stop : Z -> list ty -> res bool.
+  Fixpoint bct (fuel : nat) (depth : Z) (ts : list ty) {struct fuel} : res unit :=
+    match fuel with
+    | O => Err EFuel
+    | S f =>
+        do st <- stop depth ts;
+        if st then Ok tt else
+        if existsb is_union ts then unspecified else
+        if existsb is_opt ts then bct f depth (map strip_opt1 ts)
+        else if existsb is_listty ts then
+          if existsb outer_is_string ts then unspecified else
+          do _ <- reg_sizes_ok (filter is_listty ts);
+          bct f (depth + 1) (map elem_ty ts)
+        else if existsb is_rec ts then unspecified
+        else Err EValue
+    end.
+End BcastTy.
+
 Definition bc_fuel (ts : list ty) : nat := S (fold_right (fun t n => (ty_size t + n)%nat) O ts).
 
 (* the outer dimension: broadcast_pack wraps every array in RegularArray(x, len(x), 1) *)
@@ -576,27 +632,19 @@ Definition top_rows (cols : list (list value)) : res (list (list value)) :=
   do cs <- mapM (fun c => stretch true target (BReg (zlen c) c)) cols;
   Ok (rows_of cs).
 
-(* number of list levels of a type (purelist_depth - 1); records are leaves; strings count as one level *)
-Fixpoint pl_depth (t : ty) : Z :=
-  match t with
-  | TList _ (Some _) _ => 1
-  | TList _ None t' => 1 + pl_depth t'
-  | TOpt t' => pl_depth t'
-  | _ => 0
-  end.
-Fixpoint outer_is_string (t : ty) : bool :=
-  match t with
-  | TOpt t' => outer_is_string t'
-  | TList _ (Some _) _ => true
-  | _ => false
-  end.
 
 (* ====================================================================== C10 *)
+(* purelist_depth = 2 with purelist_parameter("__array__") = string: a list of strings *)
+Definition list_of_strings (t : ty) : bool :=
+  match strip_opt t with
+  | TList _ None t' => outer_is_string t'
+  | _ => false
+  end.
 Definition zip_stop (depth_limit : option Z) (depth : Z) (ts : list ty) : res bool :=
   if existsb is_union ts then unspecified else
   match depth_limit with
   | Some dl => Ok (dl =? depth)
-  | None => Ok (forallb (fun t => (pl_depth t =? 0) || ((pl_depth t =? 1) && outer_is_string t)) ts)
+  | None => Ok (forallb (fun t => (pl_depth t =? 0) || ((pl_depth t =? 1) && list_of_strings t)) ts)
   end.
 
 (* ak.zip(arrays, depth_limit): [fields] = dict keys / None for a tuple *)
@@ -610,6 +658,7 @@ Definition spec_zip (depth_limit : option Z) (fields : option (list name)) (arrs
   | [] => unspecified
   | _ =>
       let ts := map fst arrs in
+      do _ <- bct (zip_stop depth_limit) (bc_fuel ts) 1 ts;
       do rows <- top_rows (map snd arrs);
       rmap VList (mapM (fun row => bc (zip_stop depth_limit) (fun ps => mk_tuple fields (map snd ps))
                                       (bc_fuel ts) 1 (zip ts row)) rows)
@@ -729,6 +778,7 @@ Fixpoint wf_v (where_ : option name) (scalar : bool) (tb : ty) (b : value) (tw :
       let tw1 := strip_opt1 tw in
       match tw1 with
       | TUnion _ | TOpt _ => unspecified
+      | TList _ (Some _) _ => unspecified      (* a string next to a list: broadcast as a unit or as characters *)
       | TList _ _ _ =>
           do bs <- mapM classify [(tb, b); (tw1, w)];
           let allreg := match first_var bs with None => true | Some _ => false end in
@@ -743,10 +793,6 @@ Fixpoint wf_v (where_ : option name) (scalar : bool) (tb : ty) (b : value) (tw :
       | _ =>
           match b with
           | VList bl =>
-              do _ <- match szb with
-                      | Some s => if negb scalar && negb (s =? 1) then Err EValue else Ok tt
-                      | None => Ok tt
-                      end;
               rmap VList (mapM (fun bi => wf_v where_ scalar tb' bi tw1 w) bl)
           | _ => Err EValue
           end
@@ -894,10 +940,10 @@ Definition spec_concat_axis (axis : Z) (arrs : list arr) : res value :=
   | (t0, _) :: _ =>
       let ts := map fst arrs in
       if existsb has_union ts then unspecified else
-      do ax <- resolve_axis t0 0 axis;
+      do ax <- resolve_axis_top t0 axis;
       let maxdepth := fold_right (fun t m => Z.max (snd (minmax t)) m) 0 ts in
       if negb ((0 <=? ax) && (ax <? maxdepth)) then Err EValue else
-      if negb (forallb (fun t => match resolve_axis t 0 axis with Ok a => a =? ax | Err _ => false end) ts)
+      if negb (forallb (fun t => match resolve_axis_top t axis with Ok a => a =? ax | Err _ => false end) ts)
       then Err EValue else
       if mixes_bool_num ts then unspecified else
       if ax =? 0 then Ok (VList (concat (map snd arrs)))
@@ -1013,7 +1059,7 @@ Definition concat_type_ok (in_tys : list ty) (out_ty : ty) : bool :=
 (* ====================================================================== C09 *)
 (* ak.pad_none(array, target, axis, clip) *)
 Definition spec_pad_none (target axis : Z) (clip : bool) (t : ty) (vs : list value) : res value :=
-  do ax <- resolve_axis t 0 axis;
+  do ax <- resolve_axis_top t axis;
   if ax =? 0 then
     if clip then
       (if target <? 0 then Err EValue else Ok (VList (take target (vs ++ repeatZ VNone (target - zlen vs)))))
@@ -1024,7 +1070,7 @@ Definition spec_pad_none (target axis : Z) (clip : bool) (t : ty) (vs : list val
 (* ak.is_none(array, axis): True exactly at the None entries of the lists at depth [axis] *)
 Definition is_none_f (_ : ty) (l : list value) : res value := Ok (VList (map (fun v => VBool (is_none v)) l)).
 Definition spec_is_none (axis : Z) (t : ty) (vs : list value) : res value :=
-  do ax <- resolve_axis t 0 axis;
+  do ax <- resolve_axis_top t axis;
   if ax =? 0 then (match t with TUnion _ => unspecified | _ => is_none_f t vs end)
   else rmap VList (spec_ax is_none_f true (fun _ => true) false t axis vs).
 
@@ -1033,6 +1079,7 @@ Section Fill.
   Variable v0 : value.
   (* [d] = number of list levels above; replaces the None entries of the option nodes found at depth [axis] *)
   Fixpoint fill_v (t : ty) (d axis : Z) (v : value) {struct t} : res value :=
+    match t with TRec _ [] => Ok v | _ =>
     do ax <- resolve_axis t d axis;
     if ax <? d then Ok v else
     match t with
@@ -1069,6 +1116,7 @@ Section Fill.
         | _ => Err EValue
         end
     | TUnion _ => unspecified
+    end
     end.
 
   (* axis=None: every None at every level *)
@@ -1107,7 +1155,7 @@ Inductive fill_axis := FAxis (a : Z) | FAll | FDefault.
 Definition spec_fill_none (axis : fill_axis) (v0 : value) (t : ty) (vs : list value) : res value :=
   if mixes_bool_num [t; TNum DInt64] then unspecified else      (* a number merged into booleans: True becomes 1 *)
   match axis with
-  | FAxis a => rmap VList (mapM (fill_v v0 t 0 a) vs)
+  | FAxis a => do _ <- resolve_axis_top t a; rmap VList (mapM (fill_v v0 t 0 a) vs)
   | FAll => rmap VList (mapM (fill_all_v v0 t) vs)
   | FDefault =>
       if is_flat t then rmap VList (mapM (fill_v v0 t 0 0) vs)
@@ -1132,6 +1180,7 @@ Fixpoint mask_v (vw : bool) (tm : ty) (m : value) (ta : ty) (a : value) {struct 
       let ta1 := strip_opt1 ta in
       match ta1 with
       | TUnion _ | TOpt _ => unspecified
+      | TList _ (Some _) _ => unspecified      (* a string next to a list: broadcast as a unit or as characters *)
       | TList _ _ _ =>
           do bs <- mapM classify [(tm, m); (ta1, a)];
           let allreg := match first_var bs with None => true | Some _ => false end in
@@ -1146,10 +1195,6 @@ Fixpoint mask_v (vw : bool) (tm : ty) (m : value) (ta : ty) (a : value) {struct 
       | _ =>
           match m with
           | VList ml =>
-              do _ <- match szm with
-                      | Some s => if negb (s =? 1) then Err EValue else Ok tt
-                      | None => Ok tt
-                      end;
               rmap VList (mapM (fun mi => mask_v vw tm' mi ta1 a) ml)
           | _ => Err EValue
           end
@@ -1158,8 +1203,16 @@ Fixpoint mask_v (vw : bool) (tm : ty) (m : value) (ta : ty) (a : value) {struct 
   | _ => Err EValue                                 (* "mask must have boolean type" *)
   end.
 
+Fixpoint mask_leaf_ok (tm : ty) : bool :=
+  match tm with
+  | TNum DBool | TUnk => true
+  | TList _ None t' | TOpt t' => mask_leaf_ok t'
+  | TRec _ _ | TUnion _ => true
+  | _ => false
+  end.
 Definition spec_mask (vw : bool) (ta : ty) (avs : list value) (tm : ty) (ms : list value) : res value :=
   if has_union ta || has_union tm then unspecified else
+  if negb (mask_leaf_ok tm) then Err EValue else
   do rows <- top_rows [avs; ms];
   rmap VList (mapM (fun row => match row with
                                | [a; m] => mask_v vw tm m ta a
@@ -1170,9 +1223,10 @@ Definition spec_mask (vw : bool) (ta : ty) (avs : list value) (tm : ty) (ms : li
 Definition firsts_f (_ : ty) (l : list value) : res value :=
   Ok (match l with [] => VNone | x :: _ => x end).
 Definition spec_firsts (axis : Z) (t : ty) (vs : list value) : res value :=
-  do ax <- resolve_axis t 0 axis;
+  do ax <- resolve_axis_top t axis;
   if ax =? 0 then Ok (match vs with [] => VNone | x :: _ => x end)
   else if ax <? 0 then Err EValue
+  else if rec_above (Z.to_nat (ax - 1)) t then Err EValue      (* ak.num(..) > 0 on records: "cannot broadcast records" *)
   else rmap VList (spec_ax firsts_f false (fun _ => true) true t ax vs).
 
 (* ak.singletons(array): at the outermost option of every path, None -> [] and x -> [x] *)
